@@ -138,7 +138,32 @@ func intType(t types.Type) (ity, bool) {
 	return ity{}, false
 }
 
+// byteWrapper: a named struct whose only field is an embedded byte-slice type (mysql56BinlogEvent{binlogEvent}), or the
+// interface BinlogEvent, whose values in the translated functions are always such wrappers.  Both are represented by
+// the bytes they wrap: the wrapper adds no state, and the methods the translated functions call on it are the promoted
+// methods of the embedded type.
+func byteWrapper(t types.Type) bool {
+	if n, ok := t.(*types.Named); ok && n.Obj().Name() == "BinlogEvent" {
+		if _, ok := n.Underlying().(*types.Interface); ok {
+			return true
+		}
+	}
+	st, ok := t.Underlying().(*types.Struct)
+	if !ok || st.NumFields() != 1 || !st.Field(0).Embedded() {
+		return false
+	}
+	sl, ok := st.Field(0).Type().Underlying().(*types.Slice)
+	if !ok {
+		return false
+	}
+	b, ok := sl.Elem().Underlying().(*types.Basic)
+	return ok && b.Kind() == types.Uint8
+}
+
 func isBytes(t types.Type) bool {
+	if byteWrapper(t) {
+		return true
+	}
 	switch u := t.Underlying().(type) {
 	case *types.Slice:
 		b, ok := u.Elem().Underlying().(*types.Basic)
@@ -398,6 +423,15 @@ func (t *tr) expr(e ast.Expr, b *binds) string {
 		t.fail(e, "selector")
 	case *ast.CompositeLit:
 		ty := t.info.TypeOf(e)
+		if byteWrapper(ty) {
+			if len(e.Elts) != 1 {
+				t.fail(e, "literal of a byte wrapper without its field")
+			}
+			if kv, ok := e.Elts[0].(*ast.KeyValueExpr); ok {
+				return t.expr(kv.Value, b)
+			}
+			return t.expr(e.Elts[0], b)
+		}
 		st, ok := ty.Underlying().(*types.Struct)
 		if !ok {
 			t.fail(e, "composite literal of %s", ty)
@@ -713,6 +747,12 @@ func (t *tr) call(e *ast.CallExpr, b *binds, stmt bool) string {
 		if sel, ok := t.info.Selections[f]; ok && sel.Kind() == types.MethodVal {
 			if fn, ok := sel.Obj().(*types.Func); ok && fn.Pkg() == t.pkg {
 				rt := deref(sel.Recv())
+				if byteWrapper(rt) {
+					// a method promoted from the embedded byte-slice type: the receiver it is declared on
+					if r := fn.Type().(*types.Signature).Recv(); r != nil {
+						rt = deref(r.Type())
+					}
+				}
 				if named, ok := rt.(*types.Named); ok {
 					k = named.Obj().Name() + "." + f.Sel.Name
 					recv = f.X
@@ -781,6 +821,10 @@ func (t *tr) ret(s *ast.ReturnStmt, ev env) string {
 			continue
 		}
 		if id, ok := r.(*ast.Ident); ok && id.Name == "nil" {
+			if rt := ev.results.At(i).Type(); isBytes(rt) && !byteWrapper(rt) {
+				vals = append(vals, "[]") // a nil byte slice: no bytes
+				continue
+			}
 			t.fail(s, "nil result")
 		}
 		vals = append(vals, t.expr(r, &b))
